@@ -10,7 +10,7 @@ Definition FOps : Ops := {|
   oltb := PrimFloat.ltb; oleb := PrimFloat.leb; oeqb := PrimFloat.eqb;
   omin := GoMath.fmin; omax := GoMath.fmax;
   ofZ := GoMath.of_Z; otoZ := GoMath.to_Z;
-  ofloor := GoMath.floor; oceil := GoMath.ceil;
+  ofloor := GoMath.floor; oceil := GoMath.ceil; ofmod := GoMath.fmod;
   osin := GoMath.sin; ocos := GoMath.cos; otan := GoMath.tan;
   oatan := GoMath.atan; oatan2 := GoMath.atan2; oacos := GoMath.acos;
   opi := 0x1.921fb54442d18p+1%float;
